@@ -901,6 +901,14 @@ func (data *Data) CreateShardGroupWithBounds(db string, rp *RetentionPolicyInfo,
 func (data *Data) createVersionMeasurement(db string, rp *RetentionPolicyInfo, shardKey *proto2.ShardKeyInfo, numOfShards int32,
 	indexR *proto2.IndexRelation, ski *ShardKeyInfo, mst string, version uint32, engineType config.EngineType,
 	colStoreInfo *ColStoreInfo, schemaInfo []*proto2.FieldSchema, options *proto2.Options) error {
+	// a schema that contradicts itself is refused before anything is created
+	fieldTypes := make(map[string]int32, len(schemaInfo))
+	for i := range schemaInfo {
+		if t, ok := fieldTypes[schemaInfo[i].GetFieldName()]; ok && t != schemaInfo[i].GetFieldType() {
+			return ErrFieldTypeConflict
+		}
+		fieldTypes[schemaInfo[i].GetFieldName()] = schemaInfo[i].GetFieldType()
+	}
 	sgLen := len(rp.ShardGroups)
 	if sgLen == 0 {
 		ski.ShardGroup = data.MaxShardGroupID + 1
